@@ -4,50 +4,82 @@ From SM Require Import Ident.
 Import ListNotations.
 Open Scope list_scope.
 
-Lemma upper_not_snake_char c :
-  is_upper c = true -> (is_lower c || is_digit c || is_us c) = false.
+Lemma upper_not_snake_char u :
+  u_is_upper u = true -> (u_is_lower u || u_is_digit u || u_is_us u) = false.
 Proof.
-  destruct c as [[] [] [] [] [] [] [] []]; vm_compute; intros H; try reflexivity; discriminate.
+  destruct u as [c|b].
+  - destruct c as [[] [] [] [] [] [] [] []]; vm_compute; intros H; try reflexivity; discriminate.
+  - destruct b as [[] [] [] [] [] [] [] []]; vm_compute; intros H; try reflexivity; discriminate.
 Qed.
 
 Lemma snake_chars_no_upper prev cs :
-  snake_chars_ok prev cs = true -> forallb (fun c => negb (is_upper c)) cs = true.
+  snake_chars_ok prev cs = true -> forallb (fun c => negb (u_is_upper c)) cs = true.
 Proof.
   revert prev. induction cs as [|c r IH]; intros prev H; [reflexivity|].
   cbn [snake_chars_ok] in H. cbn [forallb].
-  destruct (is_upper c) eqn:Eu.
+  destruct (u_is_upper c) eqn:Eu.
   - apply upper_not_snake_char in Eu.
     apply orb_false_iff in Eu as [Eu Eus]. apply orb_false_iff in Eu as [El Ed].
     rewrite El, Ed, Eus in H. cbn in H. discriminate.
   - cbn [negb andb].
-    destruct (negb (is_lower c) && negb (is_digit c) && negb (is_us c)); [discriminate|].
-    destruct (is_us c); [destruct prev; [discriminate|eapply IH; exact H]|eapply IH; exact H].
+    destruct (negb (u_is_lower c) && negb (u_is_digit c) && negb (u_is_us c)); [discriminate|].
+    destruct (u_is_us c); [destruct prev; [discriminate|eapply IH; exact H]|eapply IH; exact H].
 Qed.
 
 Lemma snake_aux_no_upper prev cs :
-  forallb (fun c => negb (is_upper c)) cs = true -> snake_aux prev cs = cs.
+  forallb (fun c => negb (u_is_upper c)) cs = true -> snake_aux prev cs = cs.
 Proof.
   revert prev. induction cs as [|c r IH]; intros prev H; [reflexivity|].
   cbn [forallb] in H. apply andb_prop in H as [Hc Hr].
-  cbn [snake_aux]. destruct (is_upper c); [discriminate|]. rewrite IH; [reflexivity|exact Hr].
+  cbn [snake_aux]. destruct (u_is_upper c); [discriminate|]. rewrite IH; [reflexivity|exact Hr].
 Qed.
 
+(* decoding groups the two bytes of a Latin-1 letter; encoding gives the bytes back *)
+Lemma decode_cons c rest :
+  decode (c :: rest) =
+  match rest with
+  | b :: rest' => if Ascii.eqb c "195"%char && is_cont b then UL b :: decode rest' else UA c :: decode rest
+  | [] => [UA c]
+  end.
+Proof. destruct rest; reflexivity. Qed.
+
+Lemma encode_decode_bounded n : forall cs, length cs <= n -> encode (decode cs) = cs.
+Proof.
+  induction n as [|n IH]; intros cs Hl.
+  - destruct cs; [reflexivity|cbn in Hl; lia].
+  - destruct cs as [|c [|b rest]]; [reflexivity|reflexivity|].
+    rewrite decode_cons.
+    destruct (Ascii.eqb_spec c "195"%char) as [->|N]; cbn [andb].
+    + destruct (is_cont b).
+      * unfold encode. cbn [flat_map enc1 app]. fold (encode (decode rest)). rewrite IH; [reflexivity|cbn in Hl; lia].
+      * unfold encode. cbn [flat_map enc1 app]. fold (encode (decode (b :: rest))). rewrite IH; [reflexivity|cbn in Hl |- *; lia].
+    + unfold encode. cbn [flat_map enc1 app]. fold (encode (decode (b :: rest))). rewrite IH; [reflexivity|cbn in Hl |- *; lia].
+Qed.
+
+Lemma encode_decode cs : encode (decode cs) = cs.
+Proof. apply (encode_decode_bounded (length cs)). apply le_n. Qed.
+
+Lemma decode_cons_plain c rest : Ascii.eqb c "195"%char = false -> decode (c :: rest) = UA c :: decode rest.
+Proof. intros E. rewrite decode_cons. destruct rest; [reflexivity|]. rewrite E. reflexivity. Qed.
+
 (* `#` is not a snake_case character, so a snake_case name is not a raw identifier *)
-Lemma strip_raw_snake cs : snake_chars_ok false cs = true -> strip_raw cs = cs.
+Lemma strip_raw_snake cs : snake_chars_ok false (decode cs) = true -> strip_raw cs = cs.
 Proof.
   intros H. destruct cs as [|a [|b rest]]; try reflexivity. unfold strip_raw.
   destruct (Ascii.eqb_spec a "r"%char) as [->|_]; [|reflexivity].
   destruct (Ascii.eqb_spec b "#"%char) as [->|_]; [|reflexivity].
-  cbn in H. discriminate.
+  exfalso. rewrite (decode_cons_plain "r"%char) in H by reflexivity.
+  rewrite (decode_cons_plain "#"%char) in H by reflexivity.
+  vm_compute in H. discriminate.
 Qed.
 
 (* a snake_case event name is its own method name *)
 Lemma snake_id s : is_snake_case s = true -> to_snake_case s = s.
 Proof.
   unfold is_snake_case, to_snake_case. intros H.
-  destruct (list_ascii_of_string s) as [|c r] eqn:E; [discriminate|].
-  destruct (is_us c || opt_test is_us (hd_error (rev (c :: r)))); [discriminate|].
-  rewrite (strip_raw_snake _ H).
-  apply snake_chars_no_upper in H. rewrite (snake_aux_no_upper _ _ H), <- E.
+  destruct (decode (list_ascii_of_string s)) as [|c r] eqn:E; [discriminate|].
+  destruct (u_is_us c || opt_test u_is_us (hd_error (rev (c :: r)))); [discriminate|].
+  rewrite <- E in H. rewrite (strip_raw_snake _ H).
+  apply snake_chars_no_upper in H. rewrite (snake_aux_no_upper _ _ H), encode_decode.
   apply string_of_list_ascii_of_string.
 Qed.
